@@ -96,6 +96,11 @@ def _ifexp(test, a, b):
         inner = _ifexp(test, a.value, b.value)
         if not isinstance(inner, ast.IfExp):
             return ast.Attribute(value=inner, attr=a.attr, ctx=ast.Load())
+    # N24 (also for conditional expressions built from if / elif / else): equal outcomes of nested tests are one outcome
+    if isinstance(b, ast.IfExp) and _norm(a) == _norm(b.body):
+        return ast.IfExp(test=ast.BoolOp(op=ast.Or(), values=[test, b.test]), body=a, orelse=b.orelse)
+    if isinstance(a, ast.IfExp) and _norm(b) == _norm(a.orelse):
+        return ast.IfExp(test=ast.BoolOp(op=ast.And(), values=[test, a.test]), body=a.body, orelse=b)
     return ast.IfExp(test=test, body=a, orelse=b)
 
 
@@ -207,6 +212,11 @@ class _Canon(ast.NodeTransformer):
         self.generic_visit(node)
         if isinstance(node.test, ast.Constant) and (isinstance(node.test.value, bool) or node.test.value is None):
             return node.body if node.test.value else node.orelse         # N12 for conditional expressions
+        # N24: `X if a else (X if b else Y)` -> `X if a or b else Y`;  `(X if b else Y) if a else Y` -> `X if a and b else Y` (same evaluation order)
+        if isinstance(node.orelse, ast.IfExp) and _norm(node.body) == _norm(node.orelse.body):
+            return self.visit_IfExp(_loc(ast.IfExp(test=ast.BoolOp(op=ast.Or(), values=[node.test, node.orelse.test]), body=node.body, orelse=node.orelse.orelse), node))
+        if isinstance(node.body, ast.IfExp) and _norm(node.orelse) == _norm(node.body.orelse):
+            return self.visit_IfExp(_loc(ast.IfExp(test=ast.BoolOp(op=ast.And(), values=[node.test, node.body.test]), body=node.body.body, orelse=node.orelse), node))
         if isinstance(node.test, ast.UnaryOp) and isinstance(node.test.op, ast.Not):
             node = _loc(ast.IfExp(test=node.test.operand, body=node.orelse, orelse=node.body), node)     # `a if not c else b` -> `b if c else a`
         if isinstance(node.test, (ast.Name, ast.Attribute)) and _norm(node.test) == _norm(node.body):
